@@ -72,12 +72,12 @@ SmallMs == 40
 FreshAt(hh, pre, e, c) ==
   IF hh.cfg.idleTimeout # 2 THEN TRUE
   ELSE IF c \in 1..Len(e.ages) THEN e.ages[c][2] < SmallMs
-  ELSE Get(hh.backAt, c, 0) # 0 /\ Get(hh.tickAtBack, c, 0) = pre.ticks
+  ELSE Get(hh.backAt, c, 0) # 0 /\ pre.ticks < Get(hh.tickAtBack, c, 0) + 3      \* (model clock: 3 units = the small timeout)
 \* (ages are measured for hand-backs of non-shared connections and for the registration / last checkout of shared ones)
 ExpiredAt(hh, pre, e, c) ==
   /\ hh.cfg.idleTimeout = 2
   /\ IF c \in 1..Len(e.ages) THEN e.ages[c][1] > SmallMs /\ e.ages[c][2] < 1000000
-     ELSE Get(hh.backAt, c, 0) # 0 /\ pre.ticks > Get(hh.tickAtBack, c, 0)
+     ELSE Get(hh.backAt, c, 0) # 0 /\ pre.ticks >= Get(hh.tickAtBack, c, 0) + 3
 
 Holders(o, c) == {r \in 1..NReqO(o) : o.req[r].held = c}
 InCheckout(o, r) == r \in 1..NReqO(o) /\ o.req[r].st = "checkout"
@@ -129,6 +129,18 @@ C04(hh, pre, e, post) ==
          /\ (IdleLen(hh, pre, pre.conn[e.c].o) < hh.cfg.maxIdle \/ LiveWaiter(hh, pre, pre.conn[e.c].o))
          /\ post.conn[e.c].live = 0
       THEN <<V("C04:released-connection-not-kept", 0, e.c)>> ELSE <<>>)
+  \* "an open connection released by a finished request is kept": the release itself (Pooled dropped by the inner service or
+  \* with a cancelled request that was sending) must leave the connection alive - parked until it is ready again
+  \o (IF /\ hh.alive /\ (e.e = "Release" \/ (e.e = "Cancel" /\ e.stage = "sending")) /\ e.r \in 1..NReqO(pre)
+         /\ HasConn(pre, pre.req[e.r].held) /\ pre.conn[pre.req[e.r].held].st = "open" /\ ~pre.conn[pre.req[e.r].held].up
+         /\ ~pre.conn[pre.req[e.r].held].h2 /\ post.conn[pre.req[e.r].held].live = 0
+      THEN <<V("C04:released-open-connection-dropped", e.r, pre.req[e.r].held)>> ELSE <<>>)
+  \* ... and the passage of time alone does not make the pool give up a connection that is waiting to become ready again
+  \o (IF /\ hh.alive /\ e.e = "Tick"
+         /\ \E c \in 1..NConnO(pre) : /\ HasConn(pre, c) /\ pre.conn[c].st = "open" /\ ~pre.conn[c].up /\ ~pre.conn[c].h2
+                                        /\ pre.conn[c].parked /\ pre.conn[c].live > 0 /\ post.conn[c].live = 0
+      THEN <<V("C04:parked-connection-given-up", 0, CHOOSE c \in 1..NConnO(pre) : /\ HasConn(pre, c) /\ pre.conn[c].st = "open" /\ ~pre.conn[c].up
+                                        /\ ~pre.conn[c].h2 /\ pre.conn[c].parked /\ pre.conn[c].live > 0 /\ post.conn[c].live = 0)>> ELSE <<>>)
   \o (IF /\ hh.alive /\ e.e = "Cancel" /\ e.stage = "checkout"
          /\ Get(hh.reserved, e.r, 0) # 0
          /\ IsUsable(pre, Get(hh.reserved, e.r, 0))
